@@ -132,9 +132,10 @@ Definition run_serde (ty caps pts arg : bytes) : bytes :=
       else if is_ty ty "str" then hexv (serde_line (fun _ => ser_string (fun s => s)) (fun _ => de_string (fun s => Ok s)))
       else match ty with
            | x68 :: x61 :: x73 :: x68 :: x3a :: name =>        (* "hash:" <Name> *)
-               match assoc name hash_text_table with
-               | Some (len, (db, pb)) => hexv (serde_line (fun hr => ser_hash hr db) (fun hr => de_hash hr len pb))
-               | None => err "type" end
+               if existsb (bytes_eqb name) midstate_wrapper_names then hexv (serde_line ser_midstate de_midstate)
+               else match assoc name hash_serde_table with
+                    | Some (len, (db, pb)) => hexv (serde_line (fun hr => ser_hash hr db) (fun hr => de_hash hr len pb))
+                    | None => err "type" end
            | _ => err "type" end
   | _, _ => err "parse" end.
 
